@@ -33,7 +33,10 @@ def opsBits (op : String) (args : List SExp) : Option String :=
         | [] => some (acc ++ s!" end {r.pos} {if r.data == d then "same" else "changed"}")
         | .list [.atom k, n] :: rest => do
           let n ← n.int?
-          if k == "i" then
+          if k == "p" then
+            -- the caller moves the cursor (forwards or backwards) between reads: `raw_data.pos = n`
+            go ⟨r.data, n.toNat⟩ rest acc
+          else if k == "i" then
             match readAsInt r n with
             | .ok (v, r') => go r' rest (acc ++ s!" {v}")
             | .error _ => some (acc ++ " err")
